@@ -74,6 +74,50 @@ type vC12Rec struct {
 	evs   []string
 	pairs []string // (parent label option, label) of every sub-run, parent read from the context the probe handed down
 	alien int      // sub-runs whose context carried a different ledger than the tree's
+	// generation of every sub-run, in the order of [pairs]: how many detached-walk starts lie on its path from the
+	// client's own chain. A run started through the Queryer has its parent's generation (handed down the context by
+	// the probe); a run that finds no probe above it was started by a detached job: its context carries the request id
+	// of the run whose processDelegation spawned the job — the probe gives every run its own id (the id only selects the
+	// outbound address, and the lab has none configured), so it names the spawner: generation = the spawner's + 1.
+	gens   []string
+	byID   map[uint16]vC12RunInfo
+	serial uint16
+}
+
+type vC12RunInfo struct {
+	label string
+	gen   int
+}
+
+// vC12GenKey carries the generation of the pipeline run a context descends from
+type vC12GenKey struct{}
+
+// contextKeyV6Walk by value: the driver must also build against a tree that does not have the identifier (the walk
+// mark then simply reads as absent); the srcgen item context_key_v6_walk pins the number
+const vC12WalkKey = contextKey(3)
+
+// enter registers a pipeline run (the client's own chain included) and says what it descends from
+func (r *vC12Rec) enter(ctx context.Context, nest int) (id uint16, gen int, parent string, hasParent bool) {
+	r.mu.Lock()
+	defer r.mu.Unlock()
+	r.serial++
+	id = r.serial
+	if g, ok := ctx.Value(vC12GenKey{}).(int); ok {
+		gen = g
+		parent, hasParent = ctx.Value(vC12ParentKey{}).(string)
+	} else if nest > 0 {
+		gen = 1
+		if sid, ok := ctx.Value(contextKeyRequestID).(uint16); ok {
+			if sp, known := r.byID[sid]; known {
+				gen, parent, hasParent = sp.gen+1, sp.label, true
+			}
+		}
+	}
+	if r.byID == nil {
+		r.byID = map[uint16]vC12RunInfo{}
+	}
+	r.byID[id] = vC12RunInfo{label: vC12Label(ctx, nest), gen: gen}
+	return
 }
 
 // vC12ParentKey carries the label of the pipeline run a context descends from (set by the probe, read by the probe of
@@ -85,8 +129,8 @@ func vC12Label(ctx context.Context, nest int) string { return vC12LabelAs("mk_sl
 func vC12LabelAs(ctor string, ctx context.Context, nest int) string {
 	dn, _ := ctx.Value(contextKeyDnameDepth).(int)
 	nsl := ctx.Value(contextKeyNSL) != nil
-	return fmt.Sprintf("%s %d (mk_cx %s %d %d %s)", ctor, nest, vC12Flag(middleware.IsBestEffortRecursionWork(ctx)),
-		cachemw.VC12ChaseDepth(ctx), dn, vC12Flag(nsl))
+	return fmt.Sprintf("%s %d (mk_cx %s %d %d %s %s)", ctor, nest, vC12Flag(middleware.IsBestEffortRecursionWork(ctx)),
+		cachemw.VC12ChaseDepth(ctx), dn, vC12Flag(nsl), vC12Flag(ctx.Value(vC12WalkKey) != nil))
 }
 
 func (r *vC12Rec) packet() {
@@ -102,7 +146,7 @@ func (r *vC12Rec) packet() {
 	r.evs = append(r.evs, fmt.Sprintf("EvX %d %d", s.OutboundQueries, s.InternalQueries))
 }
 
-func (r *vC12Rec) sub(ctx context.Context, nest int) bool {
+func (r *vC12Rec) sub(ctx context.Context, nest int, gen int, parent string, hasParent bool) bool {
 	if r == nil {
 		return false
 	}
@@ -117,11 +161,12 @@ func (r *vC12Rec) sub(ctx context.Context, nest int) bool {
 	label := vC12Label(ctx, nest)
 	s := r.led.Snapshot()
 	r.evs = append(r.evs, fmt.Sprintf("EvS (%s) %d %d", label, s.OutboundQueries, s.InternalQueries))
-	if par, ok := ctx.Value(vC12ParentKey{}).(string); ok {
-		r.pairs = append(r.pairs, fmt.Sprintf("(Some (%s), %s)", par, label))
+	if hasParent {
+		r.pairs = append(r.pairs, fmt.Sprintf("(Some (%s), %s)", parent, label))
 	} else {
 		r.pairs = append(r.pairs, fmt.Sprintf("(None, %s)", label))
 	}
+	r.gens = append(r.gens, fmt.Sprintf("%d%%nat", gen))
 	return true
 }
 
@@ -133,7 +178,7 @@ type vC12Store struct {
 	inner   middleware.Store
 	rec     *vC12Rec
 	mu      sync.Mutex
-	pending map[string][2]string
+	pending map[string][3]string
 }
 
 func vC12StoreKey(q dns.Question, cd bool) string {
@@ -153,7 +198,8 @@ func (s *vC12Store) GetWithContext(ctx context.Context, req *dns.Msg) (*dns.Msg,
 		nest := middleware.VC12QueryerDepth(ctx)
 		par, _ := ctx.Value(vC12ParentKey{}).(string)
 		s.mu.Lock()
-		s.pending[vC12StoreKey(req.Question[0], req.CheckingDisabled)] = [2]string{vC12LabelAs("mk_dl", ctx, nest), par}
+		g, _ := ctx.Value(vC12GenKey{}).(int)
+		s.pending[vC12StoreKey(req.Question[0], req.CheckingDisabled)] = [3]string{vC12LabelAs("mk_dl", ctx, nest), par, strconv.Itoa(g)}
 		s.mu.Unlock()
 	}
 	return msg, ok
@@ -168,7 +214,7 @@ func (s *vC12Store) done(resp *dns.Msg, keyCD bool) {
 	delete(s.pending, k)
 	s.mu.Unlock()
 	if ok {
-		s.rec.direct(p[0], p[1])
+		s.rec.direct(p[0], p[1], p[2])
 	}
 }
 func (s *vC12Store) SetFromResponse(resp *dns.Msg, keyCD bool, cutUntil time.Time) {
@@ -194,7 +240,7 @@ func (s *vC12Store) ClearZoneFailure(q dns.Question, zone string) {
 	}
 }
 
-func (r *vC12Rec) direct(label, parent string) {
+func (r *vC12Rec) direct(label, parent, gen string) {
 	r.mu.Lock()
 	defer r.mu.Unlock()
 	if !r.on || r.led == nil {
@@ -207,6 +253,7 @@ func (r *vC12Rec) direct(label, parent string) {
 	} else {
 		r.pairs = append(r.pairs, fmt.Sprintf("(None, %s)", label))
 	}
+	r.gens = append(r.gens, gen+"%nat")
 }
 
 func (r *vC12Rec) end() {
@@ -756,11 +803,16 @@ func (p *vC12Probe) ServeDNS(ctx context.Context, ch *middleware.Chain) {
 	p.runs.Add(1)
 	// the code's own nesting counter: 0 in the client's chain, depth+1 inside Queryer.Query
 	nest := middleware.VC12QueryerDepth(ctx)
-	if nest > 0 && p.rec.sub(ctx, nest) {
+	id, gen, parent, hasParent := p.rec.enter(ctx, nest)
+	if nest > 0 && p.rec.sub(ctx, nest, gen, parent, hasParent) {
 		defer p.rec.end()
 	}
-	// hand this run's label down: the probe of a sub-run started from here reads it as its parent
-	ch.Next(context.WithValue(ctx, vC12ParentKey{}, vC12Label(ctx, nest)))
+	// hand this run's label, generation and id down: the probe of a sub-run started from here reads the label as its
+	// parent; a detached job spawned from here carries the id away as its request id
+	down := context.WithValue(ctx, vC12ParentKey{}, vC12Label(ctx, nest))
+	down = context.WithValue(down, vC12GenKey{}, gen)
+	down = context.WithValue(down, contextKeyRequestID, id)
+	ch.Next(down)
 	// the ledger is materialised by the first debit at the latest; the client's own chain
 	// returns last, so the pointer left here is the tree's
 	if l := middleware.RecursionWorkFrom(ctx); l != nil {
@@ -769,6 +821,7 @@ func (p *vC12Probe) ServeDNS(ctx context.Context, ch *middleware.Chain) {
 }
 
 type vC12Rig struct {
+	window int // generations of detached walks to wait for (0 = 1)
 	v6     bool
 	net    *vC12Net
 	probe  *vC12Probe
@@ -778,16 +831,17 @@ type vC12Rig struct {
 }
 
 // traced runs one client query on its own ledger and returns the event sequence of its request tree
-func (rig *vC12Rig) traced(qname string, edns bool) (vC12Reply, []string, []string, int) {
+func (rig *vC12Rig) traced(qname string, edns bool) (vC12Reply, []string, []string, []string, int) {
 	own := middleware.NewRecursionWorkLedger(rig.policy)
 	rig.rec.mu.Lock()
 	rig.rec.led, rig.rec.evs, rig.rec.pairs, rig.rec.alien, rig.rec.on = own, nil, nil, 0, own != nil
+	rig.rec.gens, rig.rec.byID = nil, nil
 	rig.rec.mu.Unlock()
 	rep := rig.queryWith(qname, edns, own)
 	rig.rec.mu.Lock()
 	defer rig.rec.mu.Unlock()
 	rig.rec.on = false
-	return rep, rig.rec.evs, rig.rec.pairs, rig.rec.alien
+	return rep, rig.rec.evs, rig.rec.pairs, rig.rec.gens, rig.rec.alien
 }
 
 // ---------------------------------------------------------------- DNSSEC-on rig: the repository's hermetic signed namespace
@@ -853,7 +907,7 @@ func vC12NewSignedRig(t *testing.T, mode int, maxOut, maxInt uint32, qmin, v6 bo
 	p := reg.Build(cfg)
 	q := middleware.NewPipelineQueryer(p.SubPipeline())
 	h.SetQueryer(q)
-	h.SetStore(&vC12Store{inner: cm.Store(), rec: rec, pending: map[string][2]string{}})
+	h.SetStore(&vC12Store{inner: cm.Store(), rec: rec, pending: map[string][3]string{}})
 	cm.SetQueryer(q)
 	cm.SetPrefetchQueryer(middleware.NewPipelineQueryer(p.SubPipeline("cache")))
 	return &vC12Rig{v6: v6, net: net0, probe: probe, pipe: p, policy: policy, rec: rec}
@@ -971,8 +1025,8 @@ func (rig *vC12Rig) queryWith(qname string, edns bool, own *middleware.Recursion
 	if rig.v6 {
 		// the detached IPv6 walk starts after defaultTimeout; it debits the same (retained) ledger
 		time.Sleep(defaultTimeout + 400*time.Millisecond)
-		if g, _ := strconv.Atoi(os.Getenv("VERIF_C12_CHAIN")); g > 1 {
-			time.Sleep(time.Duration(g-1) * (defaultTimeout + 200*time.Millisecond))
+		if rig.window > 1 {
+			time.Sleep(time.Duration(rig.window-1) * (defaultTimeout + 200*time.Millisecond))
 		}
 	}
 	out := vC12Reply{elapsed: el, written: w.Written(), rcode: -1}
@@ -1137,14 +1191,22 @@ func TestVerifC12Lab(t *testing.T) {
 		boundary = append(boundary, f.t)
 	}
 	// one more client query on a fresh resolver, observed step by step
-	var emitTraceHook func(name string, v6 bool, mode int, maxOut, maxInt uint32, rep vC12Reply, evs, pairs []string, alien int, desc map[string]any)
-	emitTrace := func(name string, v6 bool, mode int, maxOut, maxInt uint32, rep vC12Reply, evs, pairs []string, alien int, desc map[string]any) {
+	buildTrace := func(name string, v6 bool, mode int, maxOut, maxInt uint32, rep vC12Reply, evs, pairs, gens []string, alien int, desc map[string]any) map[string]any {
 		tree := !v6 // detached IPv6 walks run beside each other: no stack discipline, the (parent, child) pairs are still checked
 		if len(evs) > 600 {
 			evs, tree = evs[:600], false
 		}
 		if len(pairs) > 300 {
 			pairs = pairs[:300]
+		}
+		if len(gens) > len(pairs) {
+			gens = gens[:len(pairs)]
+		}
+		maxGen := 0
+		for _, g := range gens {
+			if v, _ := strconv.Atoi(strings.TrimSuffix(g, "%nat")); v > maxGen {
+				maxGen = v
+			}
 		}
 		subs, xs, roots := 0, 0, 0
 		for _, e := range evs {
@@ -1167,30 +1229,52 @@ func TestVerifC12Lab(t *testing.T) {
 		desc["mode"], desc["max_outbound"], desc["max_internal"] = modeName, maxOut, maxInt
 		desc["upstream_arrivals"], desc["sub_pipeline_runs"], desc["detached_roots"] = xs, subs, roots
 		desc["ledger_internal"], desc["reply"] = rep.ledInt, fmt.Sprintf("%+v", rep)
-		emit(map[string]any{
+		desc["generations_of_detached_walks"] = maxGen
+		return map[string]any{
 			"k": "lab-trace-" + modeName + "-" + name,
-			"coq": fmt.Sprintf("CaseTrace %d %d %d %s %s [%s] [%s]", mode, maxOut, maxInt, vC12Flag(v6), vC12Flag(tree),
-				strings.Join(evs, "; "), strings.Join(pairs, "; ")),
+			"coq": fmt.Sprintf("CaseTrace %d %d %d %s %s [%s] [%s] [%s]", mode, maxOut, maxInt, vC12Flag(v6), vC12Flag(tree),
+				strings.Join(evs, "; "), strings.Join(pairs, "; "), strings.Join(gens, "; ")),
 			"nontrivial": subs > 0 || xs > 1,
 			"go_fail":    goFail,
 			"desc":       desc,
-		})
+		}
 	}
-	defer func() {
-		// experiment (not part of the check): generations of detached walks within a window of VERIF_C12_CHAIN x defaultTimeout
-		if os.Getenv("VERIF_C12_CHAIN") != "" {
-			for _, m := range []int{1, 2} {
-				rig, err := vC12NewRig(vC12V6Chain(), m, 128, 32, false)
+	emitTrace := func(name string, v6 bool, mode int, maxOut, maxInt uint32, rep vC12Reply, evs, pairs, gens []string, alien int, desc map[string]any) {
+		emit(buildTrace(name, v6, mode, maxOut, maxInt, rep, evs, pairs, gens, alien, desc))
+	}
+	// the chain of zones delegated to nameservers with A glue only (vC12V6Chain), IPv6Access on: one client query, observed
+	// over a window of two (thorough: also three) walk generations — a walk started from inside a walk would show up as
+	// generation 2. The wait is wall time only, so it runs beside the main loop; what it recorded is emitted at the end.
+	var chainWG sync.WaitGroup
+	var chainOut []map[string]any
+	chainWG.Add(1)
+	go func() {
+		defer chainWG.Done()
+		windows := []int{2}
+		if os.Getenv("VERIF_TIER") == "thorough" {
+			windows = []int{2, 3}
+		}
+		for _, win := range windows {
+			for _, m := range []int{2, 1} {
+				rig, err := vC12NewRig(vC12V6Chain(), m, 128, 32, win == 3)
 				if err != nil {
+					chainOut = append(chainOut, map[string]any{"k": "lab-trace", "inconclusive": true, "desc": err.Error()})
 					continue
 				}
-				rep, evs, pairs, alien := rig.traced("www.g0.", true)
+				rig.window = win
+				rep, evs, pairs, gens, alien := rig.traced("www.g0.", true)
 				rig.net.stop()
-				emitTraceHook("v6-chain", true, m, 128, 32, rep, evs, pairs, alien, map[string]any{"topology": "v6-chain", "window_generations": os.Getenv("VERIF_C12_CHAIN")})
+				chainOut = append(chainOut, buildTrace("v6-chain", true, m, 128, 32, rep, evs, pairs, gens, alien,
+					map[string]any{"topology": "v6-chain", "qname": "www.g0.", "window_generations": win}))
 			}
 		}
 	}()
-	emitTraceHook = emitTrace
+	defer func() {
+		chainWG.Wait()
+		for _, m := range chainOut {
+			emit(m)
+		}
+	}()
 	// one more client query on a fresh resolver, observed step by step
 	traceCase := func(topo vC12Topo, mode int, maxOut, maxInt uint32, qmin, edns bool) {
 		rig, err := vC12NewRig(topo, mode, maxOut, maxInt, qmin)
@@ -1198,9 +1282,9 @@ func TestVerifC12Lab(t *testing.T) {
 			emit(map[string]any{"k": "lab-trace", "inconclusive": true, "desc": err.Error()})
 			return
 		}
-		rep, evs, pairs, alien := rig.traced(topo.qname, edns)
+		rep, evs, pairs, gens, alien := rig.traced(topo.qname, edns)
 		rig.net.stop()
-		emitTrace(topo.name, topo.v6, mode, maxOut, maxInt, rep, evs, pairs, alien,
+		emitTrace(topo.name, topo.v6, mode, maxOut, maxInt, rep, evs, pairs, gens, alien,
 			map[string]any{"topology": topo.name, "p1": topo.p1, "p2": topo.p2, "qname": topo.qname, "qmin": qmin, "edns": edns})
 	}
 	// DNSSEC on: the signed namespace; the validating resolver's DS / DNSKEY fetches are direct sub-resolutions that
@@ -1223,9 +1307,9 @@ func TestVerifC12Lab(t *testing.T) {
 		qmin := c%2 == 0
 		v6 := false
 		rig := vC12NewSignedRig(t, mode, maxOut, maxInt, qmin, v6)
-		rep, evs, pairs, alien := rig.traced(qname, true)
+		rep, evs, pairs, gens, alien := rig.traced(qname, true)
 		desc := map[string]any{"topology": "signed", "qname": qname, "qmin": qmin, "edns": true}
-		emitTrace("signed", v6, mode, maxOut, maxInt, rep, evs, pairs, alien, desc)
+		emitTrace("signed", v6, mode, maxOut, maxInt, rep, evs, pairs, gens, alien, desc)
 		emit(map[string]any{
 			"k": "lab-" + map[int]string{1: "shadow", 2: "enforce"}[mode] + "-signed",
 			"coq": fmt.Sprintf("CaseLab %d %d %d 10 %d 0 %s true false %d %d %d %d %d %d %d 0 0 0", mode, maxOut, maxInt, c%len(qnames), vC12Flag(qmin),
